@@ -183,12 +183,16 @@ Definition awf (allow_substvar : bool) (f : afield) : bool := ashape allow_subst
    "", ">", "==", ...), the version text through Version::from_str(..).unwrap() (Panic 12: an epoch
    above u32::MAX) *)
 Definition aver_content (v : aver) : res (option (vop * str)) :=
-  match vop_of_text (av_op v) with
-  | None => Panic 11%N
-  | Some o =>
-    match debversion_roundtrip (rttext_of (map vpiece_tok (av_ver v))) with
-    | Ok v' => Ok (Some (o, v'))
-    | _ => Panic 12%N
+  match rttext_of (map vpiece_tok (av_ver v)) with
+  | [] => Ok None                  (* not reachable for lexer output: an IDENT token is not empty *)
+  | vt =>
+    match vop_of_text (av_op v) with
+    | None => Panic 11%N
+    | Some o =>
+      match debversion_roundtrip vt with
+      | Ok v' => Ok (Some (o, v'))
+      | _ => Panic 12%N
+      end
     end
   end.
 Definition arel_content (r : arel) : res relc :=
@@ -211,7 +215,6 @@ Definition acontent (f : afield) : res (list (list relc) * list str) :=
   end.
 
 (* ---------------- the well-formed fields of C10 are liberal layouts ---------------- *)
-Definition lib_term (t : term) : list rtoken * atom := (ws_toks (t_ws t), if t_neg t then ANot else AId (t_name t)).
 (* an architecture term "!x" is two atoms *)
 Definition lib_arch_atoms (t : term) : list (list rtoken * atom) :=
   if t_neg t then [(ws_toks (t_ws t), ANot); ([], AId (t_name t))] else [(ws_toks (t_ws t), AId (t_name t))].
